@@ -64,7 +64,9 @@ UserPool  == IF RichP("data") THEN {<< <<"c1", 6>>, 0>>, << <<"cb", 9>>, 0>>, <<
              ELSE {<< <<"c1", 6>>, 0>>}
 RealPool  == IF RichP("data") THEN {<<"r1", 11>>, <<"spb", 50>>, <<"spc", 51>>, <<"spd", 70>>} ELSE {<<"r1", 11>>}
 CredPool  == IF RichP("data") THEN {<<"p1", 10>>, <<"pb", 511>>, <<"pc", 512>>, <<"pd", 600>>} ELSE {<<"p1", 10>>}
-AcctPool  == IF RichP("reply") THEN {<<"ac1", 8>>, <<"acb", 64>>, <<"acc", 65>>, <<"acd", 90>>} ELSE {<<"ac1", 8>>}
+\* "as.." = account words with a ":stamp" suffix (the driver writes name:digits:digits)
+AcctPool  == IF RichP("reply") THEN {<<"ac1", 8>>, <<"as2", 20>>, <<"acb", 64>>, <<"asb", 64>>, <<"acc", 65>>, <<"acd", 90>>}
+             ELSE {<<"as1", 14>>}
 TextPool  == IF RichP("reply") THEN {<<"t1", 9>>, <<"spt", 60>>, <<"spu", 200>>} ELSE {<<"t1", 9>>}
 TrailPool == IF RichP("reply") THEN {"", " tr ailing :words"} ELSE {""}
 
@@ -91,7 +93,7 @@ ReplyKinds == {"OK", "OKA", "OKE", "NO", "AGAIN", "MORE", "UNL", "JUNK"}
 \* oid: the client the environment means the reply for; st = 1 marks lines the daemon must ignore entirely
 ReplyEvs(s, tag, k, oid, st) ==
                          { [e |-> "X", svc |-> s, tag |-> tag, kind |-> k, acct |-> a, text |-> t, trail |-> tr, oid |-> oid, st |-> st]
-                           : a \in (IF k = "OKA" THEN AcctPool ELSE {<<"ac1", 8>>}),
+                           : a \in (IF k = "OKA" THEN AcctPool ELSE {<<"as1", 14>>}),
                              t \in (IF k \in {"NO", "AGAIN", "MORE"} THEN TextPool ELSE {<<"t1", 9>>}),
                              tr \in (IF k = "OKA" THEN TrailPool ELSE {""}) }
 
